@@ -24,8 +24,10 @@ LEVEL_NOTE = ("compress_decompress has the single mathematical premise prime p, 
               "prime sm2_p and prime sm2_n by Pocklington certificates checked with vm_compute (C14_compress_decompress_unconditional in "
               "Props/SM2Premises.v); Fermat's little theorem is proved in Coq (Ser/Fermat.v, from mathcomp's fermat_little, transferred to Z). Modelled by contract, not verified: PEM armour, encoding/asn1's struct handling, "
               "math/big, encoding/hex, elliptic.Marshal/Unmarshal, ScalarBaseMult (abstract), PBKDF2 and AES-CBC (abstract with dec after enc = id). "
-              "wrong_password_outcome is the disjunction 'error or the garbage parses as a key'; that the second case does not happen is measured, not "
-              "proved. For RSA/ECDSA pairs the loader theorem carries the side condition that an ECDSA key is on its certificate's curve (the code compares "
+              "MODEL-LEVEL DECISIONS (near-definitional, no translator tie): wrong_password_outcome is the disjunction 'error or the garbage parses as a key' "
+              "- it says the decoder has no third outcome; that a wrong password is refused is measured (tie = PW cases of the driver), not proved; the "
+              "loader theorems (loader_accepts_iff_match, _other_algorithms, loader_pem_selection) state what the hand-transcribed decision logic accepts "
+              "against the specification of Ser/SerSpec.v; that the Go loaders decide the same is the LD / LP differential. For RSA/ECDSA pairs the loader theorem carries the side condition that an ECDSA key is on its certificate's curve (the code compares "
               "X, Y only; RSA: modulus only); GMX509KeyPairs accepts SM2 pairs only (RSA pairs are outside its domain).")
 TRUSTED_BASE = [
     "models coq/Ser/SerModel.v, coq/Ser/SerBytes.v (DER pieces: coq/SM2/DER.v through Ser/SerDER.v) written by hand from x509/utils.go, x509/pkcs8.go, sm2/utils.go, sm2/sm2.go, gmtls/tls.go, gmtls/gm_support.go",
